@@ -360,11 +360,13 @@ fn handle(line: &str) -> String {
             rawr::uci::moves::moves(&mut it, &mut p, &mut hist);
             format!("{} u={} h={}", show_pos(&p), b01(hist.is_empty()), hist.len())
         }
-        "qs" if r.len() == 2 => {
+        // qs <pos> alpha beta [ply]
+        "qs" if r.len() == 2 || r.len() == 3 => {
             let mut stats = Stats::default();
             let a = r[0].parse::<i32>().unwrap_or(0);
             let b = r[1].parse::<i32>().unwrap_or(0);
-            let s = qsearch::qsearch(&pos, &mut stats, a, b, 0);
+            let ply = if r.len() == 3 { r[2].parse::<i32>().unwrap_or(0) } else { 0 };
+            let s = qsearch::qsearch(&pos, &mut stats, a, b, ply);
             format!("{} {} {}", s, stats.nodes, stats.seldepth)
         }
         // nm <pos> <hist> <tt> alpha beta ply depth cannull
